@@ -55,6 +55,26 @@ audience
   carl watches b2 v
 end
 """
+# a server whose clock runs behind: the first thing the collector sees carries a negative time
+PASTPLAY = """role srv
+  :wait sleep 0.5
+  :ok echo hello
+  spotlight echo "$(date -u -d '%(lag)d seconds ago' +%%Y-%%m-%%dT%%H:%%M:%%SZ) load 3"; sleep 0.15; echo "$(date -u -d '%(lag2)d seconds ago' +%%Y-%%m-%%dT%%H:%%M:%%SZ) load 4"; sleep 30
+  signal load scalar at ^(?P<ts_rfc3339>) load (?P<scalar>\\d+)$
+end
+cast
+  s plays srv
+end
+script
+  tempo 100ms
+  scene w entails for s: wait
+  scene o entails for s: ok
+  storyline wo
+end
+audience
+  watcher watches s load
+end
+"""
 REPEAT = "  repeat from z\n  repeat 2 times\n"
 FLAGS = ["-k", "--clear", "--disable-plots", "-q"]
 OUTDIRS = ["out", "a/b/out", "ABS", "."]
@@ -285,6 +305,12 @@ def run(tier, seed):
             od = OUTDIRS[n % 2]
             plays.append(e2e.Play(text, args=args, outdir_arg=od, timeout=60, keep=True))
             meta.append({"flags": args, "fouled": True, "outdir": od, "oarg": od, "repeat": False, "upload": None, "config": text, "how": "early action"})
+        # the first recorded time is negative and the smallest (a spotlight reporting dates of a lagging clock before
+        # the first action ends): the time range must still contain it
+        for n, (args, lag) in enumerate(((["-q"], 5), (["-k"], 90), ([], 3))):
+            text = PASTPLAY % {"lag": lag, "lag2": lag - 1}
+            plays.append(e2e.Play(text, args=args, outdir_arg="out", timeout=60, keep=True))
+            meta.append({"flags": args, "fouled": False, "outdir": "out", "oarg": "out", "repeat": False, "upload": None, "config": text, "how": None, "past": True})
         # upload rows: a stand-in `scp` first on the PATH (documented: --upload-url implies --clear)
         bindir = os.path.join(scratch, "bin")
         os.makedirs(bindir)
